@@ -1,5 +1,5 @@
-From E2V Require Import Parsers.DirWalk Parsers.EaValue Robust.Restart Robust.ItableLen.
+From E2V Require Import Parsers.DirWalk Parsers.EaValue Robust.Restart Robust.ItableLen Robust.MinGroups.
 Require Extraction.
 Require Import ExtrOcamlBasic.
 Extraction Language OCaml.
-Extraction "dirwalk_model.ml" dir_block_walk ea_value_ok restarts itable_len_new itable_len_old.
+Extraction "dirwalk_model.ml" dir_block_walk ea_value_ok restarts itable_len_new itable_len_old min_groups_new.
